@@ -229,7 +229,7 @@ func (g *Chaos) Var() jast.Node {
 // Fn returns an expression that (usually) evaluates to a function.
 func (g *Chaos) Fn(d int) jast.Node {
 	r := g.R
-	switch r.Intn(7) {
+	switch r.Intn(8) {
 	case 0, 1, 2:
 		return &jast.Var{Name: g.builtinFn().Name}
 	case 3:
@@ -255,6 +255,12 @@ func (g *Chaos) Fn(d int) jast.Node {
 	case 5:
 		g.tag("regex")
 		return &jast.Regex{Pat: r.Pick("a", "a|b", "(a)(b)?", "[a-c]+", ".", "\\d+", "^", "a*"), Flags: r.Pick("", "i", "m", "")}
+	case 6:
+		if d < g.MaxDepth {
+			// a composed function (f ~> g), possibly of composed functions
+			g.tag("composition")
+			return &jast.Block{Exprs: []jast.Node{&jast.Apply{L: g.Fn(d + 2), R: g.Fn(d + 2)}}}
+		}
 	}
 	if len(g.fvars) > 0 {
 		return &jast.Var{Name: g.fvars[r.Intn(len(g.fvars))]}
